@@ -20,10 +20,21 @@ PROP = "C15"
 
 def classify(rep, known):
     accs = [a for a in rep["accesses"] if a[1]]
+    # the race detector sometimes cannot restore one of the two stacks ("[failed to restore the stack]"): such a report shows
+    # one side only.  It is attributed to a listed finding when the side it does show is an access to that finding's field
+    # in that finding's file (every other unlocked access to these fields is a listed reader: PsHandler, ByDurationAndName.Less)
+    incomplete = len(accs) < 2 or len(accs) < len(rep["accesses"])
     lines = [racereport.source_line(a[2]) for a in accs]
     funcs = [a[1] for a in accs]
     for k in known:
         m = k["race"]
+        if not accs:
+            continue
+        if incomplete:
+            if all(re.search(m["field"], l) and (a[2].startswith(m["other_file"]) or re.search(m["reader_func"], f))
+                   for a, f, l in zip(accs, funcs, lines)):
+                return k
+            continue
         if any(re.search(m["reader_func"], f) and re.search(m["field"], l) for f, l in zip(funcs, lines)) and \
                 all(re.search(m["field"], l) or re.search(m["reader_func"], f) for f, l in zip(funcs, lines)) and \
                 all(a[2].startswith(m["other_file"]) or re.search(m["reader_func"], a[1]) for a in accs):
